@@ -34,7 +34,9 @@ def ensure_worktree():
 def recheck(name, checks):
     d = os.path.join(SEEDED, name)
     meta = json.load(open(os.path.join(d, "meta.json")))
-    checks = checks or [meta["property"]]
+    # the property's own check, plus the checks that caught it first when its own never did
+    own_ever = meta["property"] in (meta.get("detected_by") or []) or meta["property"] in (meta.get("detected_by_now") or [])
+    checks = checks or ([meta["property"]] + ([] if own_ever else [c for c in meta.get("detected_by", []) if c != meta["property"]]))
     ensure_worktree()
     rc, o = sh(f"git apply {d}/patch.diff", cwd=WT)
     assert rc == 0, o
@@ -52,7 +54,7 @@ def recheck(name, checks):
     first = meta.get("detected_by", [])
     meta["detected_by_now"] = [c for c, r in res.items() if r["exit"] == 1]
     json.dump(meta, open(os.path.join(d, "meta.json"), "w"), indent=1)
-    ok = meta["property"] in meta["detected_by_now"] or (meta["property"] not in res and meta["detected_by_now"])
+    ok = bool(meta["detected_by_now"]) and (meta["property"] in meta["detected_by_now"] or not own_ever)
     if meta.get("not_detected_reason"):
         # recorded blind spot: expected to stay undetected (reported if that ever changes)
         print(f"{name}: recorded as not detected ({meta['not_detected_reason'][:80]}…) now={meta['detected_by_now']}", flush=True)
